@@ -327,7 +327,7 @@ impl Check for C03 {
             val_cell(op, a, b, ctx);
             return;
         }
-        let opts = JudgeOpts { limits: crate::refmodel::interp::Limits { steps: 400_000, depth: 150 }, ..Default::default() };
+        let opts = JudgeOpts { limits: crate::refmodel::interp::Limits { steps: 3_000_000, depth: 150 }, ..Default::default() };
         let (j, _) = judge(&text, b"", &opts, ctx);
         if let Judged::Agree | Judged::Violation = j {
             ctx.nontrivial();
